@@ -52,6 +52,17 @@ def tasks(tier):
         cfg = dict(M=3, alphabet=ALPHA, abort=True, handler="call", timeline=True, operation="opname",
                    max_unknown=1, faults=[(site, idx, "RuntimeError")])
         out.append({"family": "stream-hook-fault", "cfg": cfg, "entry": e, "bound": bound})
+    # exception objects whose truth value is False (an empty aggregate error) are still errors
+    for e in RETRY_ENTRIES + POLICY_ENTRIES[:2]:
+        cfg = dict(M=3, alphabet=["ok", "xf:T", "x:T", "r:T", "xf:P"], handler="call", timeline=True,
+                   operation="opname", max_unknown=1)
+        out.append({"family": "stream-falsy-exception", "cfg": cfg, "entry": e, "bound": bound})
+    # a sleep handler that itself takes time, so that the deadline can pass while it decides
+    for dl, e in itertools.product([2, 3], RETRY_ENTRIES):
+        cfg = dict(M=3, alphabet=["ok", "x:T", "r:T"], handler="call", handler_durs=[0, 2, 4],
+                   deadline=dl, durs=[0, 1], timeline=True, operation="opname", max_unknown=None,
+                   strat_menu=[1])
+        out.append({"family": "stream-slow-handler", "cfg": cfg, "entry": e, "bound": bound + 1})
     # only one of the sinks attached (the timeline must not depend on a metric hook)
     for metric, log in [(False, True), (True, False), (False, False)]:
         cfg = dict(M=3, alphabet=ALPHA, abort=True, handler="call", timeline=True, metric=metric,
@@ -222,8 +233,9 @@ def _stream(w, cfg):
             v.append(("c14.cause-tag", f"terminal {term[0]} cause={tags.get('cause')}, final "
                                        f"failure cause {want_cause}"))
         if not partial:
-            if last.kind == "x" and tags.get("err") != "OpError":
-                v.append(("c14.err-tag", f"terminal {term[0]} err={tags.get('err')}, expected OpError"))
+            want_err = type(w.objs[last.obj]).__name__ if isinstance(last.obj, int) else "OpError"
+            if last.kind == "x" and tags.get("err") != want_err:
+                v.append(("c14.err-tag", f"terminal {term[0]} err={tags.get('err')}, expected {want_err}"))
             if last.kind == "r" and "err" in tags:
                 v.append(("c14.err-tag", f"terminal {term[0]} carries err={tags['err']} for a "
                                          f"result-caused failure"))
